@@ -262,6 +262,10 @@ DevFor(E, cl) ==
   ELSE IF op = "FillNumpy" /\ cl \in {"state", "sem"} /\ Ok
           /\ Strip(ObsC(E.tgt)) = Strip(FoldFillM(pool[Ev.s].c, pool[Ev.s].d, Ev.rows, NumpyWs, "npsum"))
     THEN "Dev_SumNumpyDropsNaN"
+  ELSE IF op = "MH" /\ cl \in {"state", "sem"} /\ Ok
+          /\ LET tree == TreeOf(Ev.cols, Ev.specs, Ev.dts) IN
+             Strip(ObsC(E.tgt)) = Strip(FoldFillM(Zero(tree), tree, Ev.rows, Ones(Len(Ev.rows)), "npsum"))
+    THEN "Dev_SumNumpyDropsNaN"      \* make_histograms fills through fill.numpy
   ELSE IF op = "FillNumpy" /\ cl \in {"state", "sem", "outcome", "unchanged", "wf"}
           /\ Ev.wf \in {"one", "scalar"} /\ LeadCount(pool[Ev.s].d)
     THEN "Dev_LeadingCountScalarWeight"
